@@ -35,7 +35,12 @@ MANIFEST = dict(
          "on every run and proved equal to the model's placement rule (Props/C06py.lean). Props/C06in.lean: whatever "
          "container the header rows are handed over in, exactly the configured rows reach the renderer's header loop "
          "(Model/HeaderInput.lean: field validation, the constructor's rebuild as a list, the type guards' dispatch), "
-         "tied to the code by the field after construction and the rendered rows for every argument shape.",
+         "tied to the code by the field after construction and the rendered rows for every argument shape. "
+         "Props/C06fig.lean: a figure document has one page per FIGURE with title slot, subline, picture, footnote, "
+         "source placed against the figure count, whatever the lengths of fig_width / fig_height (a non-empty size "
+         "list answers every position, the last value reused; the roles of a page do not depend on the sizes) - tied "
+         "to the code on 1-6 figures with either size as scalar / int / one entry / fewer, as many, more entries than "
+         "figures, list or tuple (role sequences per page of the real text against Model.EncodeFigure's text).",
     note="Paper geometry after each break and the single header/footer definition are checked on the observation "
          "(exact rational arithmetic on the configured floats); they are emitted by string templates outside the "
          "role-level model. The layout model takes the header LIST; the container is a construction matter "
@@ -47,7 +52,9 @@ MANIFEST = dict(
 
 RULE = ("the product page_title × page_footnote × page_source × footnote kind × source kind × pageby_header × strategy × "
         "header mode on documents of 1, 2, 3 and many pages, random paper size/margins incl. A4 and landscape, figure "
-        "documents with 1..5 figures; the same product with the component arguments in every container spelling the "
+        "documents with 1..6 figures × fig_width / fig_height each as scalar, int, one-entry list, list with fewer "
+        "(1 < k < n) / as many / more entries than figures, list or tuple × fig_align × placements × title / subline / "
+        "footnote / source / page header / page footer; the same product with the component arguments in every container spelling the "
         "constructors accept (column headers as list / tuple / single object with 1-3 rows carrying own widths on "
         "all / some / no rows, the table as a one-section list, texts as str / list / tuple / frame); non-trivial = "
         "≥ 2 pages with at least one placed component; distinct by the configuration tuple and page count")
@@ -60,13 +67,55 @@ def png_bytes(w=3, h=2):
             + b"\0\0\0\0" + b"x" * 12)
 
 
-def gen_figure(rng):
-    nfig = rng.randint(1, 5)
+# How `fig_width` / `fig_height` are handed over.  The statement speaks about figure documents with 1..n figures, not
+# about the container of the sizes: RTFFigure documents "single value or list", the page loop resolves the size of
+# figure i positionally and reuses the LAST value for the figures beyond the list (`_get_dimension`; Model.Figure.getDim).
+# Every shape must therefore give one page per figure with the placements evaluated against the FIGURE count.
+DIM_SHAPES = ["scalar", "int-scalar", "list-one", "list-short", "list-full", "list-long", "tuple-one", "tuple-short",
+              "tuple-full", "tuple-long"]
+_DIM_VALUES = [1.0, 1.5, 2.0, 2.5, 3.0, 0.75, 4, 2]
+
+
+def draw_dim(rng, shape, nfig):
+    """a value of fig_width / fig_height in the given shape for a document of `nfig` figures (docgen JSON form);
+    `short` = 1 < k < nfig entries where the figure count allows it (else one entry fewer than figures, at least 1)"""
+    if shape == "scalar":
+        return float(rng.choice(_DIM_VALUES))
+    if shape == "int-scalar":
+        return rng.choice([1, 2, 3])
+    rel = shape.split("-")[1]
+    if rel == "one":
+        k = 1
+    elif rel == "short":
+        k = rng.randint(2, nfig - 1) if nfig >= 3 else 1
+    elif rel == "full":
+        k = nfig
+    else:
+        k = nfig + rng.randint(1, 3)
+    vals = [rng.choice(_DIM_VALUES) for _ in range(k)]
+    return {"__tuple__": vals} if shape.startswith("tuple") else vals
+
+
+def dim_class(v, nfig):
+    """the class of a drawn size value relative to the figure count (evidence label)"""
+    if isinstance(v, dict):
+        box, v = "tuple", v["__tuple__"]
+    elif isinstance(v, list):
+        box = "list"
+    else:
+        return "int-scalar" if isinstance(v, int) else "scalar"
+    k = len(v)
+    rel = "one" if k == 1 else "short" if k < nfig else "full" if k == nfig else "long"
+    return f"{box}-{rel}" + ("(1<k<n)" if rel == "short" else "")
+
+
+def gen_figure(rng, nfig=None, shapes=None, kinds=("absent", "para")):
+    nfig = rng.randint(1, 5) if nfig is None else nfig
     pt, pf, ps = rng.choice(PLACE), rng.choice(PLACE), rng.choice(PLACE)
     has_title = rng.random() < 0.7
     has_subl = rng.random() < 0.5
-    fk = rng.choice(["absent", "para"])
-    sk = rng.choice(["absent", "para"])
+    fk = rng.choice(kinds)
+    sk = rng.choice(kinds)
     geo = rand_geometry(rng)
     page = dict(page_title=pt, page_footnote=pf, page_source=ps)
     page.update(geo)
@@ -75,13 +124,36 @@ def gen_figure(rng):
                             fig_width=3.0, fig_height=2.0, _as_list=True),
                 page=page, title=dict(text=["TTL0"]) if has_title else None,
                 subline=dict(text="SUBLN") if has_subl else None,
-                footnote=dict(text="FTNOTE", as_table=False) if fk == "para" else None,
-                source=dict(text="SRCTXT", as_table=False) if sk == "para" else None,
+                footnote=dict(text="FTNOTE", as_table=fk == "table") if fk != "absent" else None,
+                source=dict(text="SRCTXT", as_table=sk == "table") if sk != "absent" else None,
                 page_header=dict(text="PGHDR") if rng.random() < 0.5 else None)
+    # the sizes in a drawn shape (scalar / one entry / fewer, as many, more entries than figures; list / tuple) and the
+    # alignment — drawn after everything else
+    sw, sh = shapes or (rng.choice(DIM_SHAPES), rng.choice(DIM_SHAPES))
+    fig = spec["figure"]
+    fig["fig_width"], fig["fig_height"] = draw_dim(rng, sw, nfig), draw_dim(rng, sh, nfig)
+    fig["fig_align"] = rng.choice(["left", "center", "right"])
+    if rng.random() < 0.3:
+        spec["page_footer"] = dict(text="PGFTR")
     info = dict(strategy="figure", header_mode="figure", model=False, n=0, nfig=nfig, placements=[pt, pf, ps],
                 has_title=has_title, has_subline_txt=has_subl, footnote=fk, source=sk, page_by=None, subline_by=None,
-                geometry=geo, has_ph=spec["page_header"] is not None, has_pf=False)
+                geometry=geo, has_ph=spec["page_header"] is not None, has_pf=spec.get("page_footer") is not None,
+                labels=[f"figures:{nfig}", f"fig_width:{dim_class(fig['fig_width'], nfig)}",
+                        f"fig_height:{dim_class(fig['fig_height'], nfig)}", f"fig_align:{fig['fig_align']}"])
     return spec, info
+
+
+def gen_figure_sys(rng, j):
+    """document j of the figure class: 1..6 figures × the shape of fig_width (systematic) × the shape of fig_height
+    (systematic on a second walk, so every pair of shapes occurs), placements / components / geometry random
+    (footnote and source as paragraphs: RTFDocument refuses as_table=True next to an RTFFigure)"""
+    nfig = 1 + j % 6
+    S = len(DIM_SHAPES)
+    sw = DIM_SHAPES[(j // 6) % S]
+    sh = DIM_SHAPES[(j // 6 + j // (6 * S) + 3 * (j % 6)) % S]
+    if j % 2:
+        sw, sh = sh, sw
+    return gen_figure(rng, nfig=nfig, shapes=(sw, sh), kinds=("absent", "para", "para"))
 
 
 def rand_geometry(rng):
@@ -476,7 +548,139 @@ def run_header_input(res):
             res.disagree(o["case"], m)
 
 
-FAM.extra_streams = run_header_input
+# ----------------------------------------------------------------------------- figure documents (Model/EncodeFigure)
+# One page per figure, whatever the shape of fig_width / fig_height: 1–6 figures × {scalar, int, one entry, fewer /
+# as many / more entries than figures; list or tuple} for either size × the placement product × title / subline /
+# footnote / source / page header / page footer × geometry × alignment.  Oracle: `C06.oracle` on
+# the real text (role sequence of page k of nfig, one picture per page, geometry restated, header / footer once).
+# Tie: the post-construction state goes to `Model.EncodeFigure.encodeWithF` (driver op `encode_figure`, sizes resolved
+# by `Model.Figure.getDim`: positional, last value reused); the model's text is read by the same reader and the role
+# sequences per page are compared.
+
+FIGS = {"quick": 240, "thorough": 2400}
+
+
+def _fig_worker(case):
+    """real rtflite on one figure document: observation + oracle + the state the model is asked about"""
+    try:
+        import contextlib
+        import io
+        import tempfile
+
+        from .. import encodecorr2
+
+        spec, info = case["spec"], case["info"]
+        out = dict(case=case)
+        wd = tempfile.mkdtemp(prefix="rtfv_c06fig_")
+        try:
+            with contextlib.redirect_stdout(io.StringIO()):
+                doc = docgen.build(spec, wd)
+        except Exception as e:  # noqa: BLE001
+            out["error"] = f"construction refused: {docgen.classify_exc(e)}: {str(e)[:200]}"
+            return out
+        req, real = encodecorr2.encode_real(doc, "figure")
+        req.pop("check", None)
+        out["req"] = req
+        if real[0] != "ok":
+            out["error"] = f"rtf_encode raised {real[1]}: {real[2]}"
+            return out
+        try:
+            rd = rtfread.read(real[1])
+        except rtfread.RtfError as e:
+            out["error"] = f"output unreadable: {e}"
+            return out
+        pages, raw = laygen.classify(rd, info)
+        out["pages"] = pages
+        out["fails"] = FAM.oracle(spec, info, dict(pages=pages, _raw=raw, _doc=rd, _rtf=real[1]))
+        out["nt"] = FAM.nontrivial(spec, info, dict(pages=pages))
+        return out
+    except Exception:  # noqa: BLE001
+        import traceback
+
+        return dict(machinery=traceback.format_exc()[-1500:])
+
+
+def _fig_classify(args):
+    """role blocks per page of a text the model printed (same reader, same classification)"""
+    text, info = args
+    try:
+        return dict(pages=laygen.classify(rtfread.read(text), info)[0])
+    except rtfread.RtfError as e:
+        return dict(unreadable=str(e))
+
+
+def _fig_describe(spec, info):
+    f = spec["figure"]
+    return (f"{info['nfig']} figure(s), fig_width={json.dumps(f['fig_width'])}, fig_height={json.dumps(f['fig_height'])}, "
+            f"page_title/footnote/source={'/'.join(info['placements'])}")
+
+
+def _fig_judge(o, d, pm):
+    """(fails, disagreements) of one figure document: worker outcome, driver answer, the model text's pages"""
+    spec, info = o["case"]["spec"], o["case"]["info"]
+    what = _fig_describe(spec, info)
+    if "error" in o:
+        # every drawn configuration is documented as accepted: a refusal leaves the configured pages unproduced
+        return [f"{what}: {o['error']}"], []
+    fails = [f"{what}: {f}" for f in o.get("fails") or []]
+    dis = []
+    if "error" in d:
+        dis.append(f"{what}: implementation produced {len(o['pages'])} page(s), Model.EncodeFigure raises {d['error']}")
+    elif pm is None or "unreadable" in pm:
+        dis.append(f"{what}: the model's text is unreadable: {(pm or {}).get('unreadable')}")
+    else:
+        a, b = FAM.project(o["pages"], info), FAM.project(pm["pages"], info)
+        if a != b:
+            dis.append(f"{what}: " + layfamily._first_diff(a, b))
+    return fails, dis
+
+
+def _fig_cases(seed, tier):
+    cases = []
+    for j in range(FIGS[tier]):
+        spec, info = gen_figure_sys(common.sub_rng(seed, "c06fig", j), j)
+        cases.append(dict(spec=spec, info=info, level="figure-doc"))
+    return cases
+
+
+def _fig_model(outs):
+    reqs = [o["req"] for o in outs if "req" in o]
+    drv = iter(common.driver_batch(reqs))
+    ds = [next(drv) if "req" in o else {"error": "not asked"} for o in outs]
+    todo = [(d["text"], o["case"]["info"]) for o, d in zip(outs, ds) if "text" in d and "pages" in o]
+    pms = iter(common.pool_map(_fig_classify, todo, chunksize=8) if len(todo) >= 4 else
+               [common.isolated(_fig_classify, t) for t in todo])
+    return ds, [next(pms) if "text" in d and "pages" in o else None for o, d in zip(outs, ds)]
+
+
+def run_figure_docs(res):
+    cases = _fig_cases(res.seed, res.tier)
+    outs = common.pool_map(_fig_worker, cases, chunksize=4)
+    for o in outs:
+        if "machinery" in o:
+            raise common.MachineryError("worker failed: " + o["machinery"])
+    ds, pms = _fig_model(outs)
+    for o, d, pm in zip(outs, ds, pms):
+        case = o["case"]
+        nt = o.get("nt")
+        res.case(case, ("figure-doc",) + tuple(nt) if isinstance(nt, list) else None)
+        res.count("figure-doc")
+        for lab in case["info"]["labels"]:
+            res.count("figure-doc:" + lab)
+        fails, dis = _fig_judge(o, d, pm)
+        res.corr_checked += 1
+        for f in fails[:1]:
+            res.fail(case, f)
+        for m in dis[:1]:
+            res.disagree(case, m)
+
+
+def _extra_streams(res):
+    run_header_input(res)
+    run_figure_docs(res)
+
+
+FAM.extra_streams = _extra_streams
 
 
 def run(res, build):
@@ -484,7 +688,10 @@ def run(res, build):
         FAM, res, build, RULE, layfamily.TRUSTED_COMMON, layfamily.ASSUME_COMMON,
         explanation="C06_order, C06_title/subline/footnote/source, C06_col_headers, C06_break, C06_single_page hold "
                     "for every LDoc and page. Geometry restatement and the single header/footer definition are "
-                    "observation-level clauses (oracle), as are figure documents. C06in_*: for every container the "
+                    "observation-level clauses (oracle). Figure documents: C06fig_page / C06fig_dims_total / "
+                    "C06fig_roles_independent_of_sizes about Model.EncodeFigure (one page per figure, placements "
+                    "against the figure count, whatever the lengths of the size lists), tied per page by role "
+                    "sequence; the oracle decides the statement on the real text. C06in_*: for every container the "
                     "constructors accept for the column headers (single object, list, tuple; the table as a "
                     "one-section list) the configured rows reach the header loop, because construction hands on a "
                     "list — the only sequence the renderer's type guards recognise.")
@@ -494,7 +701,7 @@ def replay(payload):
     case = payload.get("case") or {}
     if "spec" not in case:
         for b in payload.get("broken", []):
-            if b.get("kind") == "correspondence" and (b.get("case") or {}).get("level") == "header-input":
+            if b.get("kind") == "correspondence" and (b.get("case") or {}).get("level") in ("header-input", "figure-doc"):
                 case = b["case"]
     if case.get("level") == "header-input":
         o = common.pool_map(_hin_worker, [case] * 4)[0]
@@ -506,6 +713,30 @@ def replay(payload):
         print("implementation:", json.dumps({k: v for k, v in o.items() if k != "case"}))
         print("model:", json.dumps(d))
         fails, dis = _hin_judge(o, d)
+        for f in fails:
+            print("FAIL:", f)
+        for m in dis:
+            print("MODEL DISAGREES:", m)
+        if fails:
+            print("VIOLATION property=C06 replay=<given>")
+            return 1
+        if dis:
+            print("VIOLATION property=C06 replay=<given> no-failing-input-found")
+            return 1
+        print("property holds on this input")
+        return 0
+    if case.get("level") == "figure-doc":
+        o = common.isolated(_fig_worker, case)
+        if "machinery" in o:
+            print(o["machinery"])
+            return 2
+        ds, pms = _fig_model([o])
+        print("document:", _fig_describe(case["spec"], case["info"]))
+        for i, p in enumerate(o.get("pages") or []):
+            print(f" page {i + 1}: {json.dumps(p)[:400]}")
+        if pms[0] and "pages" in pms[0]:
+            print("model pages:", json.dumps(FAM.project(pms[0]["pages"], case["info"]))[:800])
+        fails, dis = _fig_judge(o, ds[0], pms[0])
         for f in fails:
             print("FAIL:", f)
         for m in dis:
